@@ -4,6 +4,7 @@ import (
 	"fmt"
 	"go/token"
 	"go/types"
+	"sort"
 	"strings"
 
 	"golang.org/x/tools/go/ssa"
@@ -13,7 +14,7 @@ func init() {
 	register(&propertyDef{
 		id:    "C12",
 		title: "a step reports a consistent life story under every interleaving",
-		rules: []ruleFunc{c12Traces, c12R5, c12R6, c12R7, c12R8, c12R10, c12R14, c12R16, c12R17, c12R18, c12R19},
+		rules: []ruleFunc{c12Traces, c12R5, c12R6, c12R7, c12R8, c12R10, c12R14, c12R16, c12R17, c12R18, c12R19, c12R20},
 		decided: "typestate rules over ALL notification sequences the step goroutine's code can emit (path exploration of the loop-free run() call tree, every select case and unknown flag forked): declared stages in dependency order (R1), declared outputs (R2), " +
 			"no stage finished twice or both finished and failed (R3), exactly one completion preceded by state=finished (R4), every And-successor of a finished stage reported finished or impossible (R9); closers mark closed first and wait (R5); every input hand-over is once-guarded and cannot block (R6); " +
 			"every channel that is closed has its sends and its close under one mutex with a marker test (R7); stage/state writes hold the step lock (R8). Shared: step goroutines are registered with the wait group before they start, so nothing is notified after Close/ForceClose returned (R10 = C05.R3). No goroutine counted in a step's WaitGroup waits on that group (R14).",
@@ -631,4 +632,124 @@ func c12R19(c *Ctx) {
 		})
 	}
 	c.minCount(rule, "explicit unlocks of step locks", n, 8)
+}
+
+// C12.R20 an input-available flag is set on behalf of one stage only.
+func c12R20(c *Ctx) {
+	const rule = "C12.R20"
+	c.explain("C12.R20 each boolean field of a running step that ProvideStageInput (or a helper it dispatches to) sets to true is set under exactly one `case` of the dispatch on the stage name: the flag records that THIS stage's input was provided. Code that handles one stage and marks (or supplies) the input of another — `no verdict yet? then I am enabled` — makes the real provision of that other input fail as `provided more than once`, and acts on a verdict nobody gave")
+	n := 0
+	for _, ps := range c.ifaceMethodImpls(pkgStep, "RunningStep", "ProvideStageInput") {
+		if pkgPathOf(ps) != pkgPlugin && pkgPathOf(ps) != pkgForeach {
+			continue
+		}
+		var stage *ssa.Parameter
+		for _, p := range ps.Params[1:] {
+			if bt, ok := p.Type().Underlying().(*types.Basic); ok && bt.Kind() == types.String && stage == nil {
+				stage = p
+			}
+		}
+		if stage == nil {
+			continue
+		}
+		caseOf := func(in ssa.Instruction) string {
+			out := ""
+			guardedByLocal(in, true, func(cond ssa.Value) bool {
+				b, ok := cond.(*ssa.BinOp)
+				if !ok || b.Op != token.EQL {
+					return false
+				}
+				if b.X == ssa.Value(stage) {
+					if k, isC := constString(b.Y); isC {
+						out = k
+						return true
+					}
+				}
+				return false
+			}, 0)
+			return out
+		}
+		cases := map[*types.Var]map[string]bool{}
+		add := func(f *types.Var, cs string) {
+			if cases[f] == nil {
+				cases[f] = map[string]bool{}
+			}
+			cases[f][cs] = true
+		}
+		flagStores := func(fn *ssa.Function) []*types.Var {
+			var out []*types.Var
+			eachInstr(fn, func(r instrRef) {
+				st, ok := r.I.(*ssa.Store)
+				if !ok {
+					return
+				}
+				fa, ok := st.Addr.(*ssa.FieldAddr)
+				if !ok {
+					return
+				}
+				if b, isB := constBool(st.Val); isB && b {
+					if _, isBool := fieldAddrVar(fa).Type().Underlying().(*types.Basic); isBool {
+						out = append(out, fieldAddrVar(fa))
+					}
+				}
+			})
+			return out
+		}
+		eachInstr(ps, func(r instrRef) {
+			switch x := r.I.(type) {
+			case *ssa.Store:
+				fa, ok := x.Addr.(*ssa.FieldAddr)
+				if !ok {
+					return
+				}
+				if b, isB := constBool(x.Val); isB && b {
+					add(fieldAddrVar(fa), caseOf(x))
+				}
+			case *ssa.Call:
+				h := x.Common().StaticCallee()
+				if h == nil || h.Pkg != ps.Pkg || len(h.Blocks) == 0 {
+					return
+				}
+				for _, f := range flagStores(h) {
+					add(f, caseOf(x))
+				}
+				// one more level (a helper of the helper)
+				eachInstr(h, func(r2 instrRef) {
+					if c2, ok := r2.I.(*ssa.Call); ok {
+						if h2 := c2.Common().StaticCallee(); h2 != nil && h2.Pkg == ps.Pkg && len(h2.Blocks) > 0 && h2 != h {
+							for _, f := range flagStores(h2) {
+								add(f, caseOf(x))
+							}
+						}
+					}
+				})
+			}
+		})
+		var flags []*types.Var
+		for f := range cases {
+			flags = append(flags, f)
+		}
+		sort.Slice(flags, func(i, j int) bool { return flags[i].Name() < flags[j].Name() })
+		for _, f := range flags {
+			if !strings.HasSuffix(fieldName(f), "Available") && !strings.Contains(strings.ToLower(fieldName(f)), "available") {
+				// other booleans set on the way (cancelled, …) are not once-only input flags
+				isGuard := false
+				for _, fn := range c.logicalBody(ps) {
+					eachInstr(fn, func(r instrRef) {
+						if ifi, ok := r.I.(*ssa.If); ok && loadedField(ifi.Cond) == f {
+							isGuard = true
+						}
+					})
+				}
+				if !isGuard {
+					continue
+				}
+			}
+			n++
+			cs := sortedKeys(cases[f])
+			c.verdict(len(cs) == 1 && cs[0] != "", rule, "flag:"+shortPkg(pkgPathOf(ps))+"."+fieldName(f), c.pos(ps.Pos()), "set under the case of stage `"+strings.Join(cs, ",")+"` only",
+				fmt.Sprintf("the flag %s is set while handling the input of more than one stage (%s): one stage's input is taken as given on behalf of another, and the real provision is then refused as a second one", fieldName(f), strings.Join(cs, ", ")))
+		}
+	}
+	c.minCount(rule, "input-available flags", n, 5)
 }
